@@ -34,6 +34,7 @@ META = {
 
 THEOREMS = [
     "MjProof.C48.grouped_eq_columnwise",
+    "MjProof.C48.groupByDelay_eq_columnwise",
     "MjProof.C48.resampleGroups_spec",
     "MjProof.C48.applyResampleAndDelay_eq_columnwise",
     "MjProof.C48.resample_at_original_times_id",
